@@ -139,6 +139,12 @@ fn compile_one(p2: &std::path::Path, src: &str, dumps: bool, core_json: bool, ir
     }
 }
 
+#[cfg(not(feature = "ir"))]
+pub fn ir_export(_c: &compiler::pipeline::pipeline::Compilation) -> Value {
+    serde_json::json!({"unavailable": "the harness was built without the structural IR export"})
+}
+
+#[cfg(feature = "ir")]
 pub fn ir_export(c: &compiler::pipeline::pipeline::Compilation) -> Value {
     crate::ir_export::ir_export(c)
 }
